@@ -692,3 +692,44 @@ def equality_edges(body, st):
                 if (s_ not in zero_t) == (op == "Eq"):
                     out.add((x, s_))
     return out
+
+
+def base_local(body, op):
+    """The local an operand copies, looking through single-definition temporaries (`_t = copy _x`)."""
+    if op["k"] not in ("copy", "move") or op["place"]["p"]:
+        return None
+    c = op["place"]["l"]
+    for _ in range(6):
+        alld = body.defs().get(c, [])
+        if len(alld) == 1 and alld[0][0] == "assign":
+            rv = alld[0][3]["rv"]
+            if rv["k"] == "use" and rv["op"]["k"] in ("copy", "move") and not rv["op"]["place"]["p"]:
+                c = rv["op"]["place"]["l"]
+                continue
+        break
+    return c
+
+
+def add_defs(body, local):
+    """[(block, other operand)] for every `local = local + other` (checked or unchecked add) in the body."""
+    out = []
+    for b, blk in enumerate(body.blocks):
+        if blk["cleanup"]:
+            continue
+        for st in blk["stmts"]:
+            if st["k"] != "assign" or st["rv"]["k"] != "binop" or st["rv"]["op"] not in ("AddWithOverflow", "Add", "AddUnchecked"):
+                continue
+            l, r = st["rv"]["l"], st["rv"]["r"]
+            for me, other in ((l, r), (r, l)):
+                if base_local(body, me) == local:
+                    tmp = st["place"]["l"]
+                    # the sum must flow back into the local
+                    back = False
+                    for b2, blk2 in enumerate(body.blocks):
+                        for st2 in blk2["stmts"]:
+                            if st2["k"] == "assign" and st2["place"]["l"] == local and not st2["place"]["p"] and st2["rv"]["k"] == "use" and \
+                                    st2["rv"]["op"]["k"] in ("copy", "move") and st2["rv"]["op"]["place"]["l"] == tmp:
+                                back = True
+                    if back or tmp == local:
+                        out.append((b, other))
+    return out
